@@ -34,6 +34,8 @@ def impl_predicates(pid, lines, iobs):
                                 after=",".join(tb)))
         elif t[0] in ("release",):
             names.pop(t[1], None)
+        elif t[0] == "reorder":
+            names.clear()          # tables are printed in level order: they legitimately change
         elif t[0] in ("copyedge", "assign"):
             if t[2] in names:
                 names[t[1]] = names[t[2]]
@@ -166,7 +168,7 @@ def extra_checks(pid, tier, seed, exe, workdir):
 EXTRA = {}
 
 HOOK_COMMITS = ["ec0e30b"]
-FIX_COMMITS = ["f38d614", "53a1696", "ab48bfa", "c882549", "be58dcf", "e268d80"]
+FIX_COMMITS = ["f38d614", "53a1696", "ab48bfa", "c882549", "be58dcf", "e268d80", "a281c03", "d168209", "866ad45"]
 
 _MODELLED = ("Modelled, not verified: the C++ itself; the theorems are about the Gallina model "
              "(coq/theories/Model), tied to the code only by the correspondence run. ")
@@ -315,6 +317,36 @@ PROPS["C12"] = dict(
     level_note=_MODELLED + "Independence from the deletion policy is established by correspondence (audit "
                "clauses 10-12 under each policy), not by a theorem.")
 
+PROPS["C20"] = dict(
+    gens=[("pregen", gen.gen_C20, 1.0)], quick=50, thorough=500,
+    level_text="Model = reachability (proved least fixed point, C08) under the union of the events: the grouping "
+               "(by events / by levels) and the splitting option do not appear in it at all. Tie: "
+               "SATURATION_FORWARD over pregen_relation with every grouping and splitting option vs the model "
+               "and == with the monolithic algorithms on the union relation.",
+    level_note=_MODELLED + "pregen_relation::finalize/splitMxd and the saturation recursion are not mirrored "
+               "(partial): they are compared with the proved BFS result on every generated case.")
+
+PROPS["C13"] = dict(
+    gens=[("reorder", gen.gen_C13, 1.0)], quick=50, thorough=500,
+    level_text="Proved: the reordered diagram (canonical diagram of the function of the renamed variables) "
+               "evaluates to the original function at the permuted assignment and is reduced, for any permutation "
+               "and rule. Tie: reorderVariables with all 8 heuristics x 2 swap methods on forests with several "
+               "live edges and warm caches; every held edge re-shown (table + canonical dump), the audit of the "
+               "reordered forest, and the dumps of the other forests of the domain.",
+    level_note=_MODELLED + "The in-place swap algorithms (mtmdd/mtmxd swapAdjacent*) and the scheduling "
+               "heuristics are not mirrored: the model recomputes the canonical diagram; EV+ not covered yet.")
+
+PROPS["C14"] = dict(
+    gens=[("xfile", gen.gen_C14, 1.0)], quick=50, thorough=500,
+    level_text="Proved: writing a list of diagrams as numbered records (bottom-up, shared sub-diagrams written "
+               "once, references only to earlier records) and reading the records back returns exactly the "
+               "diagrams written, in order. Tie: mdd_writer/mdd_reader round trips into the same forest, a twin "
+               "forest with other storage policies and a forest created from the file; every root re-shown "
+               "(table + canonical dump), == in the same forest, audit (canonicity and exact counts) of the "
+               "receiving forest.",
+    level_note=_MODELLED + "Lexing/printing of the text format is glue covered by the round trip itself; real "
+               "values are multiples of 1/2 (printed exactly); EV forests not covered yet.")
+
 NOT_APPLICABLE = {}
-for _p in ["C13", "C14", "C16", "C17", "C20"]:
+for _p in ["C16", "C17"]:
     NOT_APPLICABLE[_p] = "check under construction in this session (model and correspondence stream not registered yet)"
